@@ -9,7 +9,7 @@ ROOT="$(cd "$(dirname "$0")/.." && pwd)"
 B=$(dirname "$(find ~/.rustup/toolchains/nightly-x86_64-unknown-linux-gnu -name llvm-cov | head -1)")
 rm -rf /tmp/cov && mkdir -p /tmp/cov/prof /tmp/cov/out && cp -r "$ROOT/harness" /tmp/cov/harness
 cd /tmp/cov/harness && rm -f rust-toolchain && sed -i 's#target-dir = .*#target-dir = "/tmp/cov/target"#' .cargo/config.toml
-CARGO_NET_OFFLINE=true RUSTFLAGS="-C instrument-coverage --cap-lints allow" cargo +nightly build --offline >/dev/null 2>&1
+LLVM_PROFILE_FILE=/tmp/cov/prof/build-%p-%m.profraw CARGO_NET_OFFLINE=true RUSTFLAGS="-C instrument-coverage --cap-lints allow" cargo +nightly build --offline >/dev/null 2>&1
 export LLVM_PROFILE_FILE="/tmp/cov/prof/%p-%m.profraw"
 for fam in solve soft lazy hints cancel cancel-async reuse reuse-async async async-cf amo-solve conflictfree cache snapshot pool mapping; do
   /tmp/cov/target/debug/harness $fam --seed 1 --cases $N --out-cases /tmp/cov/out/$fam.c --out-impl /tmp/cov/out/$fam.i >/dev/null 2>&1 || true
